@@ -106,6 +106,13 @@ func TestVerifPoolRun(t *testing.T) {
 		}
 	}()
 	peer := ln.Addr().String()
+	// an address nobody listens on (a listener opened and closed again)
+	dl, err := net.Listen("tcp", "127.0.0.1:0")
+	if err != nil {
+		t.Fatal(err)
+	}
+	deadPeer := dl.Addr().String()
+	dl.Close()
 	EraseMessages()
 	RegisterMessage(vwPrefix, vwMsg{})
 	VerifyMessages()
@@ -178,7 +185,10 @@ func TestVerifPoolRun(t *testing.T) {
 					case 1:
 						time.Sleep(time.Duration(crng.Intn(100)) * time.Microsecond)
 					}
-					switch crng.Intn(12) {
+					switch crng.Intn(13) {
+					case 12:
+						// a peer that is not there: the dial is refused
+						note("connect-refused", p.Connect(deadPeer))
 					case 6:
 						if crng.Intn(2) == 0 {
 							note("send", p.SendMessage(peer, &vwMsg{A: 1, B: make([]byte, 200*1024)})) // fills the socket of a peer that does not read
